@@ -1,3 +1,4 @@
+import math
 """C20: out-of-domain arguments are rejected loudly; in-domain boundary arguments are not."""
 import os, sys, hashlib, warnings, io, contextlib
 from . import common as cm
@@ -190,6 +191,15 @@ def run(ctx):
         add('householder_vector', f'a flat {n}, v flat {n + 1}', hv((n,), (n + 1,)), D(sd((n,)), sd((n + 1,), 'DReal')), 'reject')
         add('householder_matrix', f'a flat {n}, v flat {n + 1}', hv((n,), (n + 1,), fn='householder_matrix'), D(sd((n,)), sd((n + 1,), 'DReal')), 'reject')
         add('householder_vector', f'a flat {n}, v complex flat {n}', hv((n,), (n,), 'complex'), D(sd((n,)), sd((n,), 'DComplex')), 'reject')
+        # complex targets in which SOME entries are real (i e1, (1+i)/sqrt 2 e1, a real vector with one complex component), every layout
+        for la, sa in lay.items():
+            for cname, mk in (('i e1', lambda sh: (lambda v: (v.__setitem__(tuple([0] * len(sh)), 1j), v)[1])(np.zeros(sh, dtype=complex))),
+                              ('(1+i)/sqrt2 e1', lambda sh: (lambda v: (v.__setitem__(tuple([0] * len(sh)), (1 + 1j) / math.sqrt(2)), v)[1])(np.zeros(sh, dtype=complex))),
+                              ('real with one complex entry', lambda sh: (lambda v: (v.__setitem__(tuple([0] * len(sh)), 0.6), v.reshape(-1).__setitem__(1, 0.8j), v)[2])(np.zeros(sh, dtype=complex)))):
+                def hvc(sa=sa, mk=mk):
+                    a = Qm(*sa) if len(sa) == 2 else Qm(sa[0], 1).reshape(sa[0]); vv = mk(sa)
+                    return lambda: tri.householder_vector(a, vv)
+                add('householder_vector', f'a {la} {n}, v complex ({cname}) {la} {n}', hvc(), None, 'reject')
         add('householder_vector', f'a flat {n}, v quaternion flat {n}', hv((n,), (n,), 'quat'), D(sd((n,)), sd((n,), 'DQuat')), 'reject')      # np.imag of a quaternion array is identically zero: the dtype is what the guard has to test
     # truncated Q-SVD: R must not exceed min(m, n)
     qsvd_mod = importlib.import_module('decomp.qsvd')
